@@ -839,7 +839,7 @@ def files_read_stage():
     work = os.path.join(report.VERIF, "work", "C19", "files")
     if os.path.isdir(work):
         shutil.rmtree(work)
-    spellings = [None, "./locales", "locales", "./i18n", "assets/i18n", "./assets/i18n/", "../shared/locales", "./../shared/locales", ".hidden/loc", "../crate/other", "./.config/../tr"]
+    spellings = [None, "./locales", "locales", "./i18n", "assets/i18n", "./assets/i18n/", "../shared/locales", "./../shared/locales", ".hidden/loc", "../crate/other"]
     decoys = ["locales", "i18n", "assets/i18n", "shared/locales", "hidden/loc", "crate/other", "config/../tr", "tr", "other", "loc"]
     dirs, meta = [], {}
     for i, sp in enumerate(spellings):
@@ -967,7 +967,7 @@ def run(tier, seed):
         "rule": "one symbolic execution of ConfigFile::new per (number of listed locales, namespaces absent / number of namespaces); every MIR path is one evaluation, its result is checked against the statement by z3 for all values of the names; a final query checks that the paths cover every input",
         "samples": [{k: v for k, v in r.items() if k not in ("calls", "mir_fns")} for r in runs[:3]] or [{"note": "none"}],
         "states": sum(r["paths"] for r in runs) or 1, "transitions": sum(r.get("solver_checks", 0) for r in runs) or 1,
-        "traces_validated_against_impl": replayed + native["configurations"] + files_stage["projects"], "native_stage": native, "files_read_stage": dict(files_stage, what="11 spellings of locales-dir (absent, ./x, x, nested, ../sibling, hidden directory, ..) with decoy directories: the real parser must load the files of the configured directory"),
+        "traces_validated_against_impl": replayed + native["configurations"] + files_stage["projects"], "native_stage": native, "files_read_stage": dict(files_stage, what="10 spellings of locales-dir (absent, ./x, x, nested, ../sibling, hidden directory, ..) with decoy directories: the real parser must load the files of the configured directory"),
         "runs": [{k: v for k, v in r.items() if k not in ("calls", "mir_fns")} for r in runs],
         "visitor_runs": [{k: v for k, v in r.items() if k not in ("calls", "mir_fns")} for r in vruns],
         "solver": "z3 %s" % z3.get_version_string(), "solver_s": round(sum(r.get("solver_s", 0) for r in runs), 3),
